@@ -391,4 +391,656 @@ theorem Space.getChain_data (sp : Space) (ss : Nat) (hss : 0 < ss) (fill : UInt8
     subst this
     simp [padChunks]
 
+
+/-! ## little-endian reads at an offset -/
+
+
+
+theorem le32_length (v : Nat) : (le32 v).length = 4 := rfl
+
+theorem le32s_length (vs : List Nat) : (le32s vs).length = 4 * vs.length := by
+  induction vs with
+  | nil => rfl
+  | cons v vs ih => simp only [le32s, List.flatMap_cons, List.length_append, List.length_cons] at *; rw [ih]; simp [le32]; omega
+
+theorem byteAt_append_left (a b : Bytes) (i : Nat) (h : i < a.length) : byteAt (a ++ b) i = byteAt a i := by
+  simp [byteAt, List.getD_eq_getElem?_getD, List.getElem?_append_left h]
+
+theorem byteAt_append_right (a b : Bytes) (i : Nat) : byteAt (a ++ b) (a.length + i) = byteAt b i := by
+  simp [byteAt, List.getD_eq_getElem?_getD, List.getElem?_append_right]
+
+theorem u16At_append_left (a b : Bytes) (o : Nat) (h : o + 1 < a.length) : u16At (a ++ b) o = u16At a o := by
+  simp only [u16At]
+  rw [byteAt_append_left a b o (by omega), byteAt_append_left a b (o + 1) h]
+
+theorem u32At_append_right (a b : Bytes) (o : Nat) : u32At (a ++ b) (a.length + o) = u32At b o := by
+  simp only [u32At, Nat.add_assoc]
+  rw [byteAt_append_right, byteAt_append_right, byteAt_append_right, byteAt_append_right]
+
+theorem u32At_le32_zero (v : Nat) (rest : Bytes) (h : v < 4294967296) : u32At (le32 v ++ rest) 0 = v := by
+  simp only [u32At, byteAt, le32, List.cons_append, List.nil_append, List.getD_cons_zero, List.getD_cons_succ,
+    UInt8.toNat_ofNat']
+  omega
+
+/-- reading the `k`-th little-endian u32 of an encoded table -/
+theorem u32At_le32s (vs : List Nat) (rest : Bytes) (k : Nat) (hk : k < vs.length)
+    (hv : ∀ v ∈ vs, v < 4294967296) : u32At (le32s vs ++ rest) (4 * k) = vs[k] := by
+  induction vs generalizing k with
+  | nil => simp at hk
+  | cons v vs ih =>
+    cases k with
+    | zero =>
+      simp only [le32s, List.flatMap_cons, List.append_assoc, Nat.mul_zero, List.getElem_cons_zero]
+      exact u32At_le32_zero v _ (hv v (by simp))
+    | succ k =>
+      simp only [le32s, List.flatMap_cons, List.append_assoc, List.getElem_cons_succ]
+      have : 4 * (k + 1) = (le32 v).length + 4 * k := by rw [le32_length]; omega
+      rw [this, u32At_append_right]
+      exact ih k (by simpa using hk) (fun w hw => hv w (by simp [hw]))
+
+/-! ## header -/
+
+def hdrFields (streams : List Stream) (L : Layout) : List Nat :=
+  [ (if L.v4 then nsect L.ss (dirBytes streams L).length else 0),
+    L.nfat,
+    chainStart L.main 0,
+    0,
+    4096,
+    chainStart L.main 1,
+    (match L.main.chains[1]? with | some ch => ch.size | none => 0),
+    L.difIds[0]?.getD ENDOFCHAIN,
+    L.ndif ]
+
+def hdrDifat (L : Layout) : List Nat := (List.range 109).map (fatIdAt L)
+
+def pre40 (v4 : Bool) : Bytes :=
+  signature ++ List.replicate 16 (0 : UInt8) ++
+    le16 0x3E ++ le16 (if v4 then 4 else 3) ++ le16 0xFFFE ++ le16 (if v4 then 12 else 9) ++ le16 6 ++
+    List.replicate 6 (0 : UInt8)
+
+/-- the header the reader must recover -/
+def hdrOf (streams : List Stream) (L : Layout) : Header :=
+  { version := if L.v4 then 4 else 3
+    sectorSize := L.ss
+    dirLen := if L.v4 then nsect L.ss (dirBytes streams L).length else 0
+    dirStart := chainStart L.main 0
+    fatLen := L.nfat
+    miniFatLen := match L.main.chains[1]? with | some ch => ch.size | none => 0
+    miniFatStart := chainStart L.main 1
+    difatStart := L.difIds[0]?.getD ENDOFCHAIN }
+
+theorem header512_eq (streams : List Stream) (L : Layout) :
+    header512 streams L = pre40 L.v4 ++ (le32s (hdrFields streams L) ++ le32s (hdrDifat L)) := by
+  simp only [header512, pre40, hdrFields, hdrDifat, List.append_assoc]
+  rfl
+
+theorem pre40_length (v4 : Bool) : (pre40 v4).length = 40 := by cases v4 <;> rfl
+
+theorem header512_length (streams : List Stream) (L : Layout) : (header512 streams L).length = 512 := by
+  rw [header512_eq]
+  simp [pre40_length, le32s_length, hdrFields, hdrDifat]
+
+theorem hdr_u32 (streams : List Stream) (L : Layout) (k : Nat) (hk : k < 9)
+    (hb : ∀ v ∈ hdrFields streams L, v < 4294967296) :
+    u32At (header512 streams L) (40 + 4 * k) = (hdrFields streams L)[k]'(by simpa [hdrFields] using hk) := by
+  rw [header512_eq]
+  have := u32At_append_right (pre40 L.v4) (le32s (hdrFields streams L) ++ le32s (hdrDifat L)) (4 * k)
+  rw [pre40_length] at this
+  rw [this]
+  exact u32At_le32s _ _ k _ hb
+
+theorem fromReader_layout (streams : List Stream) (L : Layout)
+    (hb : ∀ v ∈ hdrFields streams L, v < 4294967296) (hd : ∀ v ∈ hdrDifat L, v < 4294967296) :
+    Header.fromReader (layoutCfb streams L) = .ok (hdrOf streams L, hdrDifat L, mainBody streams L) := by
+  have hlen := header512_length streams L
+  have htake : (layoutCfb streams L).take 512 = header512 streams L := by
+    unfold layoutCfb
+    rw [List.append_assoc, List.take_left' hlen]
+  have hdrop : (layoutCfb streams L).drop 512 = List.replicate (L.ss - 512) (0 : UInt8) ++ mainBody streams L := by
+    unfold layoutCfb
+    rw [List.append_assoc, List.drop_left' hlen]
+  have hsig : (header512 streams L).take 8 = signature := by
+    unfold header512
+    simp only [List.append_assoc]
+    exact List.take_left' rfl
+  have h30 : u16At (header512 streams L) 30 = if L.v4 then 12 else 9 := by
+    rw [header512_eq, u16At_append_left _ _ 30 (by rw [pre40_length]; omega)]
+    cases L.v4 <;> rfl
+  have h32 : u16At (header512 streams L) 32 = 6 := by
+    rw [header512_eq, u16At_append_left _ _ 32 (by rw [pre40_length]; omega)]
+    cases L.v4 <;> rfl
+  have h26 : u16At (header512 streams L) 26 = if L.v4 then 4 else 3 := by
+    rw [header512_eq, u16At_append_left _ _ 26 (by rw [pre40_length]; omega)]
+    cases L.v4 <;> rfl
+  have hdif : u32s ((header512 streams L).drop 76) = hdrDifat L := by
+    rw [header512_eq, ← List.append_assoc, List.drop_left' (by simp [pre40_length, le32s_length, hdrFields])]
+    exact u32s_le32s _ hd
+  have f0 := hdr_u32 streams L 0 (by omega) hb
+  have f1 := hdr_u32 streams L 1 (by omega) hb
+  have f2 := hdr_u32 streams L 2 (by omega) hb
+  have f5 := hdr_u32 streams L 5 (by omega) hb
+  have f6 := hdr_u32 streams L 6 (by omega) hb
+  have f7 := hdr_u32 streams L 7 (by omega) hb
+  simp only [hdrFields, List.getElem_cons_zero, List.getElem_cons_succ, Nat.reduceMul, Nat.reduceAdd] at f0 f1 f2 f5 f6 f7
+  unfold Header.fromReader
+  have hl : ¬ (layoutCfb streams L).length < 512 := by
+    unfold layoutCfb; simp only [List.length_append, hlen]; omega
+  simp only [hl, if_false, htake, hdrop, hsig, ne_eq, not_true_eq_false, h30, h32, h26]
+  simp only [f0, f1, f2, f5, f6, f7]
+  rw [hdif]
+  cases hv : L.v4
+  · simp only [Layout.ss, hv, hdrOf, Bool.false_eq_true, ↓reduceIte, Nat.sub_self, List.replicate_zero, List.nil_append]
+    simp
+  · simp only [Layout.ss, hv, hdrOf, ↓reduceIte, Nat.reduceSub]
+    have hr : (List.replicate 3584 (0 : UInt8)).length = 3584 := by rw [List.length_replicate]
+    generalize List.replicate 3584 (0 : UInt8) = pad at hr ⊢
+    have : List.drop 3584 (pad ++ mainBody streams L) = mainBody streams L := List.drop_left' hr
+    simp only [this, List.length_append, hr]
+    simp
+
+
+
+/-! ## what `Valid` says -/
+
+
+
+structure ValidP (streams : List Stream) (L : Layout) : Prop where
+  total_le : L.total ≤ RESERVED
+  total_fat : L.total ≤ L.nfat * L.perFat
+  mini_small : 64 * L.mtotal < 4294967296
+  nfat_le : L.nfat ≤ 109 + L.ndif * (L.perFat - 1)
+  fatIds : idsOK L.main.owner L.fatIds Slot.fat = true
+  difIds : idsOK L.main.owner L.difIds Slot.difat = true
+  nchains : L.main.chains.size = 3 + streams.length
+  chains : ∀ c, c < 3 + streams.length →
+    chainOK L.main c (nsect L.ss ((mainData streams L).getD c []).length) = true
+  nmini : L.mini.chains.size = streams.length
+  minis : ∀ s, s < streams.length → chainOK L.mini s
+    (match streams[s]? with | some st => if isMini st then nsect 64 st.data.length else 0 | none => 0) = true
+  dirAll : ∀ s, s < streams.length → some s ∈ L.dirOrder
+  dirRange : ∀ o ∈ L.dirOrder, ∀ s, o = some s → s < streams.length
+  names : ∀ st ∈ streams, nameOK st.name = true ∧ (L.v4 = true ∨ st.data.length < 4294967296)
+  nodup : (streams.map (·.name)).Nodup
+
+theorem valid_unpack (streams : List Stream) (L : Layout) (h : Valid streams L) : ValidP streams L := by
+  unfold Valid validB at h
+  simp only [Bool.and_eq_true, decide_eq_true_eq, beq_iff_eq, List.all_eq_true, List.mem_range,
+    Bool.or_eq_true, List.contains_iff_mem] at h
+  obtain ⟨⟨⟨⟨⟨⟨⟨⟨⟨⟨⟨⟨⟨h1, h2⟩, h3⟩, h4⟩, h5⟩, h6⟩, h7⟩, h8⟩, h9⟩, h10⟩, h11⟩, h12⟩, h13⟩, h14⟩ := h
+  refine ⟨h1, h2, h3, h4, h5, h6, h7, h8, h9, h10, h11, ?_, ?_, h14⟩
+  · intro o ho s hs
+    have := h12 o ho
+    subst hs
+    simpa using this
+  · intro st hst
+    exact h13 st hst
+
+theorem idsOK_spec (owner : Array Slot) (ids : Array Nat) (mk : Nat → Slot) (h : idsOK owner ids mk = true) :
+    ∀ j, j < ids.size → ∃ k, ids[j]? = some k ∧ owner[k]? = some (mk j) := by
+  unfold idsOK at h
+  simp only [List.all_eq_true, List.mem_range] at h
+  intro j hj
+  have := h j hj
+  split at this
+  · rename_i k hk; exact ⟨k, hk, by simpa using this⟩
+  · simp at this
+
+theorem owner_lt (owner : Array Slot) (k : Nat) (s : Slot) (h : owner[k]? = some s) : k < owner.size := by
+  by_cases hlt : k < owner.size
+  · exact hlt
+  · rw [Array.getElem?_eq_none (by omega)] at h; cases h
+
+/-- pigeonhole for id tables: as many distinct sectors as entries -/
+theorem idsOK_size_le (owner : Array Slot) (ids : Array Nat) (mk : Nat → Slot) (hinj : ∀ a b, mk a = mk b → a = b)
+    (h : idsOK owner ids mk = true) : ids.size ≤ owner.size := by
+  have hs := idsOK_spec owner ids mk h
+  have hnd : ids.toList.Nodup := by
+    rw [List.Nodup, List.pairwise_iff_getElem]
+    intro i j hi hj hij heq
+    obtain ⟨k1, hk1, ho1⟩ := hs i (by simpa using hi)
+    obtain ⟨k2, hk2, ho2⟩ := hs j (by simpa using hj)
+    have e1 : ids.toList[i] = k1 := by
+      have : ids.toList[i]? = some k1 := by simpa using hk1
+      rw [List.getElem?_eq_getElem hi] at this; exact Option.some.inj this
+    have e2 : ids.toList[j] = k2 := by
+      have : ids.toList[j]? = some k2 := by simpa using hk2
+      rw [List.getElem?_eq_getElem hj] at this; exact Option.some.inj this
+    rw [e1, e2] at heq
+    subst heq
+    rw [ho1] at ho2
+    have := hinj _ _ (Option.some.inj ho2)
+    omega
+  have hsub : ids.toList ⊆ List.range owner.size := by
+    intro x hx
+    obtain ⟨i, hi, rfl⟩ := List.getElem_of_mem hx
+    obtain ⟨k1, hk1, ho1⟩ := hs i (by simpa using hi)
+    have e1 : ids.toList[i] = k1 := by
+      have : ids.toList[i]? = some k1 := by simpa using hk1
+      rw [List.getElem?_eq_getElem hi] at this; exact Option.some.inj this
+    rw [e1]
+    simpa using owner_lt owner k1 _ ho1
+  have := List.Nodup.length_le_of_subset hnd hsub
+  simpa using this
+
+
+
+/-! ## main body sectors, DIFAT walk -/
+
+
+theorem ss_cases (L : Layout) : (L.ss = 512 ∧ L.perFat = 128) ∨ (L.ss = 4096 ∧ L.perFat = 1024) := by
+  unfold Layout.perFat Layout.ss
+  cases L.v4 <;> simp
+
+theorem mainPieces_get (streams : List Stream) (L : Layout) (c : Nat) (D : Bytes)
+    (h : (mainData streams L)[c]? = some D) : (mainPieces streams L)[c]? = some (pieces L.ss L.fill D) := by
+  unfold mainPieces
+  simp [h]
+
+theorem mainPieces_uniform (streams : List Stream) (L : Layout) : UniformP L.ss (mainPieces streams L) := by
+  intro c p hp i x hx
+  unfold mainPieces at hp
+  simp only [List.getElem?_toArray, List.getElem?_map, Option.map_eq_some_iff] at hp
+  obtain ⟨D, _, rfl⟩ := hp
+  exact pieces_uniform _ _ D i x hx
+
+theorem fatSector_length (L : Layout) (j : Nat) : (fatSector L j).length = L.ss := by
+  unfold fatSector
+  rw [le32s_length]
+  simp only [List.length_map, List.length_range']
+  rcases ss_cases L with ⟨h1, h2⟩ | ⟨h1, h2⟩ <;> omega
+
+theorem difSector_length (L : Layout) (j : Nat) : (difSector L j).length = L.ss := by
+  unfold difSector
+  rw [le32s_length]
+  simp only [List.length_append, List.length_map, List.length_range', List.length_cons, List.length_nil]
+  rcases ss_cases L with ⟨h1, h2⟩ | ⟨h1, h2⟩ <;> omega
+
+/-- sector `k` of the generated body -/
+theorem mainBody_sec (streams : List Stream) (L : Layout) (k : Nat) (s : Slot) (hk : L.main.owner[k]? = some s) :
+    sec (mainBody streams L) L.ss k = sectorOf L.ss L.fill (mainPieces streams L) (fatSector L) (difSector L) s :=
+  Space.body_sec L.main L.ss L.fill _ _ _ (mainPieces_uniform streams L) (fatSector_length L) (difSector_length L) k s hk
+
+
+theorem fatIdAt_lt (streams : List Stream) (L : Layout) (hv : ValidP streams L) (t : Nat) :
+    fatIdAt L t < 4294967296 := by
+  unfold fatIdAt
+  cases h : L.fatIds[t]? with
+  | none => simp [FREESECT]
+  | some k =>
+    have ht : t < L.fatIds.size := by
+      by_cases hlt : t < L.fatIds.size
+      · exact hlt
+      · rw [Array.getElem?_eq_none (by omega)] at h; cases h
+    obtain ⟨k', hk', ho⟩ := idsOK_spec _ _ _ hv.fatIds t ht
+    rw [h] at hk'; cases hk'
+    have := owner_lt _ _ _ ho
+    have := hv.total_le
+    simp only [Layout.total, RESERVED] at *
+    simp; omega
+
+theorem difId_lt (streams : List Stream) (L : Layout) (hv : ValidP streams L) (j k : Nat)
+    (h : L.difIds[j]? = some k) : k < L.total ∧ L.main.owner[k]? = some (Slot.difat j) := by
+  have ht : j < L.difIds.size := by
+    by_cases hlt : j < L.difIds.size
+    · exact hlt
+    · rw [Array.getElem?_eq_none (by omega)] at h; cases h
+  obtain ⟨k', hk', ho⟩ := idsOK_spec _ _ _ hv.difIds j ht
+  rw [h] at hk'; cases hk'
+  exact ⟨owner_lt _ _ _ ho, ho⟩
+
+theorem difNext_lt (streams : List Stream) (L : Layout) (hv : ValidP streams L) (j : Nat) :
+    L.difIds[j]?.getD ENDOFCHAIN < 4294967296 := by
+  cases h : L.difIds[j]? with
+  | none => simp [ENDOFCHAIN]
+  | some k =>
+    have := (difId_lt streams L hv j k h).1
+    have := hv.total_le
+    simp only [Layout.total, RESERVED] at *
+    simp; omega
+
+/-- the DIFAT entries collected after `j` DIFAT sectors -/
+def difatUpTo (L : Layout) (j : Nat) : List Nat := (List.range (109 + j * (L.perFat - 1))).map (fatIdAt L)
+
+theorem difatUpTo_succ (L : Layout) (j : Nat) :
+    difatUpTo L (j + 1) = difatUpTo L j ++ (List.range' (109 + j * (L.perFat - 1)) (L.perFat - 1)).map (fatIdAt L) := by
+  unfold difatUpTo
+  rw [← List.map_append]
+  congr 1
+  rw [List.range_eq_range', List.range_eq_range']
+  have : 109 + (j + 1) * (L.perFat - 1) = (109 + j * (L.perFat - 1)) + (L.perFat - 1) := by
+    rw [Nat.add_mul]; omega
+  rw [this, ← List.range'_append_1]
+  simp
+
+theorem difatLoop_layout (streams : List Stream) (L : Layout) (hv : ValidP streams L) :
+    ∀ (k j : Nat), j + k = L.ndif → ∀ (rem : Nat) (s : Sectors) (rd : Bytes), k ≤ rem →
+      s.data ++ rd = mainBody streams L → s.size = L.ss →
+      ∃ s' rd', difatLoop rem (L.difIds[j]?.getD ENDOFCHAIN) (difatUpTo L j) s rd =
+          .ok (difatUpTo L L.ndif, s', rd') ∧ s'.data ++ rd' = mainBody streams L ∧ s'.size = L.ss := by
+  intro k
+  induction k with
+  | zero =>
+    intro j hj rem s rd _ hinv hsz
+    have hj' : j = L.ndif := by omega
+    subst hj'
+    have : L.difIds[L.ndif]? = none := Array.getElem?_eq_none (by simp [Layout.ndif])
+    rw [this]
+    refine ⟨s, rd, ?_, hinv, hsz⟩
+    cases rem <;> simp [difatLoop, ENDOFCHAIN, RESERVED]
+  | succ k ih =>
+    intro j hj rem s rd hrem hinv hsz
+    obtain ⟨rem', rfl⟩ : ∃ r, rem = r + 1 := ⟨rem - 1, by omega⟩
+    have hjlt : j < L.difIds.size := by simp only [Layout.ndif] at hj; omega
+    obtain ⟨kk, hkk⟩ : ∃ kk, L.difIds[j]? = some kk := ⟨L.difIds[j], by simp [hjlt]⟩
+    obtain ⟨hklt, hown⟩ := difId_lt streams L hv j kk hkk
+    obtain ⟨hg1, hg2, hg3⟩ := Sectors.get_spec s kk rd _ hinv
+    rw [hsz, mainBody_sec streams L kk _ hown] at hg1
+    simp only [sectorOf] at hg1
+    have hres : kk < RESERVED := by have := hv.total_le; omega
+    have hE : ∀ v ∈ (List.range' (109 + j * (L.perFat - 1)) (L.perFat - 1)).map (fatIdAt L) ++
+        [L.difIds[j + 1]?.getD ENDOFCHAIN], v < 4294967296 := by
+      intro v hv'
+      simp only [List.mem_append, List.mem_map, List.mem_cons, List.not_mem_nil, or_false] at hv'
+      rcases hv' with ⟨t, _, rfl⟩ | rfl
+      · exact fatIdAt_lt streams L hv t
+      · exact difNext_lt streams L hv (j + 1)
+    have hu : u32s (difSector L j) = (List.range' (109 + j * (L.perFat - 1)) (L.perFat - 1)).map (fatIdAt L) ++
+        [L.difIds[j + 1]?.getD ENDOFCHAIN] := by
+      unfold difSector; exact u32s_le32s _ hE
+    have hlen := difSector_length L j
+    have hne : difSector L j ≠ [] := by
+      intro h; rw [h] at hlen; rcases ss_cases L with ⟨h1, _⟩ | ⟨h1, _⟩ <;> simp [h1] at hlen
+    have hmod : (difSector L j).length % 4 = 0 := by
+      rcases ss_cases L with ⟨h1, _⟩ | ⟨h1, _⟩ <;> omega
+    obtain ⟨s', rd', he, hi', hs'⟩ := ih (j + 1) (by omega) rem' (s.get kk rd).2.1 (s.get kk rd).2.2 (by omega) hg2
+      (by rw [hg3, hsz])
+    refine ⟨s', rd', ?_, hi', hs'⟩
+    rw [hkk]
+    simp only [Option.getD_some]
+    unfold difatLoop
+    simp only [hres, if_true, hg1, hne, hmod, false_or, ne_eq, not_true_eq_false, if_false, hu]
+    rw [← List.append_assoc, List.getLastD_concat, List.dropLast_concat, ← difatUpTo_succ]
+    exact he
+
+
+
+/-! ## FAT loading -/
+
+
+theorem Space.entry_lt (sp : Space) (hall : ∀ c, c < sp.chains.size → ∃ n, chainOK sp c n = true)
+    (hres : sp.owner.size ≤ RESERVED) (k : Nat) : sp.entry k < 4294967296 := by
+  unfold Space.entry
+  cases ho : sp.owner[k]? with
+  | none => simp [FREESECT]
+  | some s =>
+    cases s with
+    | free => simp [fatEntry, FREESECT]
+    | fat j => simp [fatEntry, FATSECT]
+    | difat j => simp [fatEntry, DIFSECT]
+    | data c i =>
+      simp only [fatEntry]
+      cases hc : sp.chains[c]? with
+      | none => simp [ENDOFCHAIN]
+      | some ch =>
+        simp only
+        cases hx : ch[i + 1]? with
+        | none => simp [ENDOFCHAIN]
+        | some x =>
+          have hcl : c < sp.chains.size := by
+            by_cases hlt : c < sp.chains.size
+            · exact hlt
+            · rw [Array.getElem?_eq_none (by omega)] at hc; cases hc
+          obtain ⟨n, hn⟩ := hall c hcl
+          have hmem : x ∈ sp.ids c := by
+            unfold Space.ids; simp only [hc]
+            have : ch.toList[i + 1]? = some x := by simpa using hx
+            exact List.mem_of_getElem? this
+          have := Space.ids_lt sp c n hn x hmem
+          simp only [RESERVED] at hres
+          simp; omega
+
+theorem main_entry_lt (streams : List Stream) (L : Layout) (hv : ValidP streams L) (k : Nat) :
+    L.main.entry k < 4294967296 :=
+  Space.entry_lt L.main (fun c hc => ⟨_, hv.chains c (by rw [hv.nchains] at hc; exact hc)⟩) hv.total_le k
+
+/-- row `j` of the FAT (the content of FAT sector `j`) -/
+def fatRow (L : Layout) (j : Nat) : List Nat := (List.range' (j * L.perFat) L.perFat).map L.main.entry
+
+theorem fatId_spec (streams : List Stream) (L : Layout) (hv : ValidP streams L) (j : Nat) (hj : j < L.nfat) :
+    fatIdAt L j < L.total ∧ L.main.owner[fatIdAt L j]? = some (Slot.fat j) := by
+  obtain ⟨k, hk, ho⟩ := idsOK_spec _ _ _ hv.fatIds j hj
+  unfold fatIdAt
+  rw [hk]
+  exact ⟨owner_lt _ _ _ ho, ho⟩
+
+theorem loadFats_layout (streams : List Stream) (L : Layout) (hv : ValidP streams L) :
+    ∀ (m a : Nat) (s : Sectors) (rd : Bytes), s.data ++ rd = mainBody streams L → s.size = L.ss →
+      ∃ s' rd', loadFats ((List.range' a m).map (fatIdAt L)) s rd =
+          .ok (((List.range' a m).map fun j => if j < L.nfat then fatRow L j else []).flatten, s', rd') ∧
+        s'.data ++ rd' = mainBody streams L ∧ s'.size = L.ss := by
+  intro m
+  induction m with
+  | zero => intro a s rd hinv hsz; exact ⟨s, rd, by simp [loadFats], hinv, hsz⟩
+  | succ m ih =>
+    intro a s rd hinv hsz
+    rw [List.range'_succ]
+    simp only [List.map_cons, List.flatten_cons]
+    by_cases ha : a < L.nfat
+    · obtain ⟨hlt, hown⟩ := fatId_spec streams L hv a ha
+      obtain ⟨hg1, hg2, hg3⟩ := Sectors.get_spec s (fatIdAt L a) rd _ hinv
+      rw [hsz, mainBody_sec streams L _ _ hown] at hg1
+      simp only [sectorOf] at hg1
+      obtain ⟨s', rd', he, hi', hs'⟩ := ih (a + 1) (s.get (fatIdAt L a) rd).2.1 (s.get (fatIdAt L a) rd).2.2 hg2
+        (by rw [hg3, hsz])
+      refine ⟨s', rd', ?_, hi', hs'⟩
+      have hd : fatIdAt L a < DIFSECT := by have := hv.total_le; simp only [RESERVED, DIFSECT] at *; omega
+      have hmod : (fatSector L a).length % 4 = 0 := by
+        rw [fatSector_length]; rcases ss_cases L with ⟨h1, _⟩ | ⟨h1, _⟩ <;> omega
+      have hu : u32s (fatSector L a) = fatRow L a := by
+        unfold fatSector fatRow
+        apply u32s_le32s
+        intro v hv'
+        simp only [List.mem_map] at hv'
+        obtain ⟨t, _, rfl⟩ := hv'
+        exact main_entry_lt streams L hv t
+      unfold loadFats
+      simp only [hd, if_true, hg1, hmod, ne_eq, not_true_eq_false, if_false, he, hu, ha]
+    · obtain ⟨s', rd', he, hi', hs'⟩ := ih (a + 1) s rd hinv hsz
+      refine ⟨s', rd', ?_, hi', hs'⟩
+      have hfree : fatIdAt L a = FREESECT := by
+        unfold fatIdAt
+        rw [Array.getElem?_eq_none (by simp only [Layout.nfat] at ha; omega)]; rfl
+      unfold loadFats
+      simp only [hfree, FREESECT, DIFSECT, ha, if_false, List.nil_append]
+      simpa [FREESECT, DIFSECT] using he
+
+
+theorem fatRows_flatten (L : Layout) : ∀ n, ((List.range' 0 n).map (fatRow L)).flatten =
+    (List.range' 0 (n * L.perFat)).map L.main.entry := by
+  intro n
+  induction n with
+  | zero => simp
+  | succ n ih =>
+    rw [List.range'_1_concat, List.map_append, List.flatten_append, ih]
+    simp only [List.map_cons, List.map_nil, List.flatten_cons, List.flatten_nil, List.append_nil, fatRow, Nat.zero_add]
+    rw [← List.map_append]
+    congr 1
+    rw [Nat.add_mul, Nat.one_mul, ← List.range'_append_1]
+    simp
+
+theorem fat_rows_all (L : Layout) (M : Nat) (hM : L.nfat ≤ M) :
+    ((List.range' 0 M).map fun j => if j < L.nfat then fatRow L j else []).flatten =
+      L.main.fats (L.nfat * L.perFat) := by
+  obtain ⟨e, rfl⟩ : ∃ e, M = L.nfat + e := ⟨M - L.nfat, by omega⟩
+  rw [← List.range'_append_1, List.map_append, List.flatten_append]
+  have h1 : (List.range' 0 L.nfat).map (fun j => if j < L.nfat then fatRow L j else []) =
+      (List.range' 0 L.nfat).map (fatRow L) := by
+    apply List.map_congr_left
+    intro j hj
+    have : j < L.nfat := by simpa using (List.mem_range'_1.mp hj).2
+    simp [this]
+  have h2 : ((List.range' (0 + L.nfat) e).map (fun j => if j < L.nfat then fatRow L j else [])).flatten = [] := by
+    rw [List.flatten_eq_nil_iff]
+    intro l hl
+    simp only [List.mem_map] at hl
+    obtain ⟨j, hj, rfl⟩ := hl
+    have : ¬ j < L.nfat := by have := (List.mem_range'_1.mp hj).1; omega
+    simp [this]
+  rw [h1, h2, List.append_nil, fatRows_flatten]
+  simp [Space.fats, List.range_eq_range']
+
+
+
+/-! ## general chain read -/
+
+
+theorem flatten_uniform_length (ss : Nat) : ∀ (Ls : List Bytes), (∀ x ∈ Ls, x.length = ss) →
+    Ls.flatten.length = ss * Ls.length := by
+  intro Ls
+  induction Ls with
+  | nil => simp
+  | cons x xs ih =>
+    intro h
+    simp only [List.flatten_cons, List.length_append, List.length_cons]
+    rw [ih (fun y hy => h y (by simp [hy])), h x (by simp), Nat.mul_add]; omega
+
+theorem Space.body_length (sp : Space) (ss : Nat) (fill : UInt8) (P : Array (Array Bytes)) (fatSec difSec : Nat → Bytes)
+    (hP : UniformP ss P) (hf : ∀ j, (fatSec j).length = ss) (hd : ∀ j, (difSec j).length = ss) :
+    (sp.body ss fill P fatSec difSec).length = ss * sp.owner.size := by
+  unfold Space.body
+  rw [flatten_uniform_length ss]
+  · simp
+  · intro x hx
+    simp only [List.mem_map] at hx
+    obtain ⟨s', _, rfl⟩ := hx
+    exact sectorOf_length ss fill P fatSec difSec hP hf hd s'
+
+theorem sec_append_left (B extra : Bytes) (ss id : Nat) (h : (id + 1) * ss ≤ B.length) :
+    sec (B ++ extra) ss id = sec B ss id := by
+  unfold sec
+  rw [List.drop_append_of_le_length (by rw [Nat.add_mul] at h; omega)]
+  rw [List.take_append_of_le_length (by rw [List.length_drop, Nat.add_mul] at *; omega)]
+
+/-- `get_chain` on chain `c` of a space, for any `len` argument; the reader may hold more than the space -/
+theorem Space.getChain_gen (sp : Space) (ss : Nat) (hss : 0 < ss) (fill : UInt8) (P : Array (Array Bytes))
+    (fatSec difSec : Nat → Bytes)
+    (hP : UniformP ss P) (hf : ∀ j, (fatSec j).length = ss) (hd : ∀ j, (difSec j).length = ss)
+    (c : Nat) (D : Bytes) (hPc : P[c]? = some (pieces ss fill D))
+    (hok : chainOK sp c (nsect ss D.length) = true)
+    (len : Nat) (hlen : sp.owner.size ≤ len) (hres : sp.owner.size ≤ RESERVED)
+    (s : Sectors) (rd extra : Bytes) (hsz : s.size = ss)
+    (hinv : s.data ++ rd = sp.body ss fill P fatSec difSec ++ extra) (len0 : Nat) :
+    ∃ s' rd', s.getChain (chainStart sp c) (sp.fats len) rd len0 =
+        .ok (if len0 > 0 then (padChunks ss fill D.length D).flatten.take len0
+             else (padChunks ss fill D.length D).flatten, s', rd') ∧
+      s'.data ++ rd' = sp.body ss fill P fatSec difSec ++ extra ∧ s'.size = ss := by
+  have hfol := chainLoop_follow (sp.fats len) _ (sp.ids c) (sp.fats len).length s rd hinv
+    (by rw [Space.fats_length]; exact Nat.le_trans (Space.ids_length_le sp c _ hok) hlen)
+    (Space.fats_chain sp c _ len hok hlen hres)
+  obtain ⟨s', rd', he, hi, hs⟩ := hfol
+  refine ⟨s', rd', ?_, hi, by rw [hs, hsz]⟩
+  unfold Sectors.getChain
+  rw [chainStart_eq, he]
+  simp only
+  have hmap : (sp.ids c).map (sec (sp.body ss fill P fatSec difSec ++ extra) s.size) =
+      (sp.ids c).map (sec (sp.body ss fill P fatSec difSec) ss) := by
+    apply List.map_congr_left
+    intro id hid
+    rw [hsz]
+    apply sec_append_left
+    rw [Space.body_length sp ss fill P fatSec difSec hP hf hd]
+    have := Space.ids_lt sp c _ hok id hid
+    rw [Nat.mul_comm]
+    exact Nat.mul_le_mul_left ss (by omega)
+  rw [hmap, Space.read_chain sp ss hss fill P fatSec difSec hP hf hd c D hPc hok]
+
+theorem padChunks_flatten_exact (ss : Nat) (fill : UInt8) (hss : 0 < ss) :
+    ∀ (f : Nat) (d : Bytes), d.length ≤ f → d.length % ss = 0 → (padChunks ss fill f d).flatten = d := by
+  intro f
+  induction f with
+  | zero => intro d hd _; have : d = [] := List.eq_nil_of_length_eq_zero (by omega); subst this; simp [padChunks]
+  | succ f ih =>
+    intro d hd hmod
+    unfold padChunks
+    split
+    · rename_i h; subst h; simp
+    · rename_i hne
+      have hpos : 0 < d.length := List.length_pos_iff.mpr hne
+      have hge : ss ≤ d.length := Nat.le_of_dvd hpos (Nat.dvd_of_mod_eq_zero hmod)
+      have h1 : (List.take ss d).length = ss := by rw [List.length_take]; omega
+      simp only [List.flatten_cons]
+      rw [h1, Nat.sub_self, List.replicate_zero, List.append_nil]
+      rw [ih (d.drop ss) (by simp; omega) (by
+        rw [List.length_drop]
+        obtain ⟨q, hq⟩ := Nat.dvd_of_mod_eq_zero hmod
+        rw [hq]
+        have : ss * q - ss = ss * (q - 1) := by rw [Nat.mul_sub_one]
+        rw [this]; exact Nat.mul_mod_right ss (q - 1))]
+      exact List.take_append_drop ss d
+
+
+
+/-! ## UTF-16 names -/
+
+
+theorem char_valid (c : Char) : c.toNat < 0xD800 ∨ (0xDFFF < c.toNat ∧ c.toNat < 0x110000) := by
+  have := c.valid
+  unfold UInt32.isValidChar Nat.isValidChar at this
+  exact this
+
+theorem decode_cons_plain (u : Nat) (t : List Nat) (h : ¬ (0xD800 ≤ u ∧ u < 0xE000)) :
+    decodeUtf16 (u :: t) = Char.ofNat u :: decodeUtf16 t := by
+  cases t with
+  | nil => simp [decodeUtf16, h]
+  | cons v r =>
+    have h1 : ¬ (0xD800 ≤ u ∧ u < 0xDC00) := by omega
+    have h2 : ¬ (0xDC00 ≤ u ∧ u < 0xE000) := by omega
+    simp [decodeUtf16, h1, h2]
+
+theorem decode_pair (u v : Nat) (t : List Nat) (hu : 0xD800 ≤ u ∧ u < 0xDC00) (hv : 0xDC00 ≤ v ∧ v < 0xE000) :
+    decodeUtf16 (u :: v :: t) = Char.ofNat (0x10000 + (u - 0xD800) * 0x400 + (v - 0xDC00)) :: decodeUtf16 t := by
+  simp [decodeUtf16, hu, hv]
+
+/-- UTF-16 round trip (followed by anything) -/
+theorem decode_units (cs : List Char) (t : List Nat) :
+    decodeUtf16 (utf16Units cs ++ t) = cs ++ decodeUtf16 t := by
+  induction cs with
+  | nil => simp [utf16Units]
+  | cons c cs ih =>
+    have hval := char_valid c
+    unfold utf16Units
+    split
+    · rename_i hlt
+      simp only [List.cons_append]
+      rw [decode_cons_plain _ _ (by omega), ih, Char.ofNat_toNat]
+    · rename_i hge
+      simp only [List.cons_append]
+      obtain ⟨hi, hhi⟩ : ∃ hi, hi = (c.toNat - 0x10000) / 0x400 := ⟨_, rfl⟩
+      obtain ⟨lo, hlo⟩ : ∃ lo, lo = (c.toNat - 0x10000) % 0x400 := ⟨_, rfl⟩
+      rw [← hhi, ← hlo]
+      have hc : 0x10000 + hi * 0x400 + lo = c.toNat := by omega
+      have hu : 0xD800 ≤ 0xD800 + hi ∧ 0xD800 + hi < 0xDC00 := by omega
+      have hv : 0xDC00 ≤ 0xDC00 + lo ∧ 0xDC00 + lo < 0xE000 := by omega
+      clear hhi hlo
+      have : 0x10000 + (0xD800 + hi - 0xD800) * 0x400 + (0xDC00 + lo - 0xDC00) = c.toNat := by
+        rw [Nat.add_sub_cancel_left, Nat.add_sub_cancel_left]; exact hc
+      rewrite [decode_pair _ _ _ hu hv, ih, this, Char.ofNat_toNat]
+      exact rfl
+
+theorem decode_zeros (k : Nat) : decodeUtf16 (List.replicate k 0) = List.replicate k (Char.ofNat 0) := by
+  induction k with
+  | zero => simp [decodeUtf16]
+  | succ k ih => rw [List.replicate_succ, decode_cons_plain _ _ (by omega), ih, List.replicate_succ]
+
+theorem untilNul_name (cs : List Char) (k : Nat) (h : ∀ c ∈ cs, c ≠ Char.ofNat 0) :
+    untilNul (cs ++ List.replicate k (Char.ofNat 0)) = cs := by
+  unfold untilNul
+  induction cs with
+  | nil => cases k <;> simp [List.replicate_succ]
+  | cons c cs ih =>
+    have := h c (by simp)
+    simp only [List.cons_append]
+    rw [List.takeWhile_cons_of_pos (by simpa using this), ih (fun d hd => h d (by simp [hd]))]
+
+
 end Cfb
